@@ -15,3 +15,22 @@ pub fn is_native() -> bool {
 pub fn is_native_false() -> bool {
     false
 }
+
+/// `Arc<str>` drop / clone switched to no-ops. The only `Arc<str>` in the encoded code is the heap variant of
+/// `SmolStr`, which no harness ever creates (every id is <= 23 bytes, i.e. inline); but once an order has been moved
+/// through enum-typed slots CBMC no longer knows the variant tag of its ids, and exploring the (unreachable)
+/// reference-counted branch of every drop costs minutes to out-of-memory. Reference counting is not the subject
+/// of any property.
+pub fn arc_str_drop_nop(_: &mut std::sync::Arc<str>) {}
+pub fn arc_str_clone_same(a: &std::sync::Arc<str>) -> std::sync::Arc<str> {
+    // never reached with a real heap string (asserted); produce a bitwise copy without touching the count
+    unsafe { core::ptr::read(a) }
+}
+
+/// `SmolStr::clone` for inline strings is a `ptr::read` of the whole value, i.e. an untyped byte copy that CBMC's
+/// constant propagation cannot see through (a cloned concrete id then compares *symbolically* with the ids in a map).
+/// The stand-in clones an inline string byte by byte with the library's own `new_inline`; every id in the harnesses
+/// is <= 23 bytes, so the reference-counted variant is never involved (`new_inline` panics otherwise).
+pub fn smolstr_clone(s: &smol_str::SmolStr) -> smol_str::SmolStr {
+    smol_str::SmolStr::new_inline(s.as_str())
+}
